@@ -661,7 +661,13 @@ func (ev *c14Eval) classify(node int, upto int, mode string) (sig, why string) {
 	// 1. injected fault swallowed by the facade
 	if f := ev.fault; f != nil && !c14IsBg(f.Thread) && f.Tier != "pers" {
 		if h := ev.hop(f.HOp); h != nil && h.Err == "" {
-			if f.Op == "Set" && (h.mutator()) {
+			invalidated := false // did the facade drop the entry it could not overwrite?
+			for _, i := range h.tier {
+				if t := ev.log[i]; t.Seq > f.Seq && t.Tier == f.Tier && t.Op == "Delete" && !t.Err {
+					invalidated = true
+				}
+			}
+			if f.Op == "Set" && h.mutator() && !invalidated {
 				return fmt.Sprintf("C14:faultstale|category=%s|pattern=cache-set-error-ignored", ev.cat()),
 					"the cache write of a " + h.Kind + " failed, the error was swallowed and the old cache entry keeps being served"
 			}
